@@ -40,12 +40,13 @@ def skiplist_mechanism(ctx, thorough):
         out[cfg] = r["distinct"]
     # sensitivity: the switches that stand for the repaired defect (KF-C17-skiplist-page-id-reuse) and for the
     # counter protocol itself must each break an invariant
-    sens = [("MC_pre_zero.cfg", "new nodes start at counter 0"), ("MC_pre_stale.cfg", "fetch of an evicted removed page reads the file")]
+    sens = [("MC_pre_zero.cfg", "new nodes start at counter 0"), ("MC_pre_stale.cfg", "fetch of an evicted removed page reads the file"),
+            ("MC_pre_noentry.cfg", "removing an entry leaves the node's counter")]
     if thorough:
         sens += [("MC_pre_noval.cfg", "counters are not compared"), ("MC_pre_nobump.cfg", "a removed node keeps its counter")]
     for cfg, what in sens:
         r = vlib.tlc(ctx, SL, "MC", cfg, workers=14, timeout=1800, name="sens-" + cfg[:-4])
-        if "Invariant StructureOK is violated" not in r["out"] and "Invariant NoError is violated" not in r["out"]:
+        if "Invariant StructureOK is violated" not in r["out"] and "Invariant NoError is violated" not in r["out"]:  # (rc 12)
             raise Inconclusive("SkipList %s (%s) no longer fails: the design model lost its sensitivity\n%s" % (cfg, what, r["out"][-1500:]))
     # (1) structure conformance of sequential operations
     tr = os.path.join(ctx.work, "sl-seq.ndjson")
@@ -75,9 +76,7 @@ def skiplist_mechanism(ctx, thorough):
     vlib.vdrive(ctx, ["sl", "aba", ab, 6 if thorough else 2], timeout=600)
     res2 = vlib.validate(ctx, FAM, "MultimapHistoryTrace", "History.cfg", ab, name="val-sl-aba",
                          env={"JAVA_TOOL_OPTIONS": "-Dtlc2.tool.queue.IStateQueue=StateDeque"}, timeout=1200)
-    for v in res2["viol"]:
-        v["kf"] = "KF-C17-skiplist-page-id-reuse"
-    judge(ctx, res2, ab, "replay of the model's schedule: a Remove re-validates <page id, counter> of a node removed meanwhile")
+    judge(ctx, res2, ab, "replay of the model's counterexample schedules (a Remove re-validates <page id, counter> of a node removed meanwhile; an Insert re-validates a full node an entry was removed from)")
     replays = sum(1 for e in vlib.read_ndjson(ab) if e["ev"] == "Reset")
     return dict(model_states=out, sequential_ops=dict(ops), node_splits=splits, node_removals=removals,
                 structure_divergences=dict(mech), schedule_replays=replays)
